@@ -1,2 +1,94 @@
-(** C09 — a written shard reads back every document and all metadata (first version: pipeline bring-up). *)
-From ZV Require Import Lib.Base Lib.Varint Model.Format Model.Btree.
+(** C09 — A written shard reads back every document and all metadata.
+    Models: Model/Format.v (ShardBuilder.Add/Write, delta coding, sections, TOC, reader), Model/Btree.v (ngram b-tree).
+    Proofs: Proofs/FormatCodec.v, Proofs/Btree.v.  Constants come from Generated/FormatConsts.v (regenerated from /repo).
+
+    FULL STATEMENT AIMED AT (see NOTES.md for what is proved / what is tied by the byte-exact correspondence only):
+      forall docs repos opaque, |file| < 2^32 ->
+        load_shard (mem_file (write_shard next (add_repos repos) opaque)) = Ok d /\
+        forall i, doc_view d i = normalised document i   /\   forall ngram g, Get g = posting list of g.
+    Proved here, for ALL inputs: the codec layer (every varint / delta list / document-section list decodes to what
+    was encoded, including unsorted lists through the uint32/uint16 wrap-around) and the b-tree layer (for every
+    number of ascending ngrams, find returns the bucket holding the key).  The layout/TOC/reader composition
+    (C09_read_write) is NOT yet a theorem: it is covered by the byte-exact correspondence and the model-internal
+    read-back check of the runner on every generated shard. *)
+From ZV Require Import Lib.Base Lib.Varint Generated.FormatConsts Model.Format Model.Btree Proofs.FormatCodec Proofs.Btree.
+Open Scope N_scope.
+
+(** binary.Uvarint (binary.PutUvarint x ++ rest) = (x, bytes consumed) for every uint64. *)
+Theorem C09_uvarint_roundtrip : forall x rest, x < W64 ->
+  uvarint (put_uvarint x ++ rest) = (x, Z.of_nat (length (put_uvarint x))).
+Proof. exact uvarint_put. Qed.
+Print Assumptions C09_uvarint_roundtrip.
+
+(** fromSizedDeltas (toSizedDeltas l) = l for EVERY uint32 list — sorted or not (exact wrap law: the uint32
+    subtraction on write and addition on read cancel); the size bound is the makeslice limit. *)
+Theorem C09_sized_deltas_roundtrip : forall l, Forall (fun p => p < W32) l -> nlen l * 4 <= MAXALLOC ->
+  from_sized_deltas (to_sized_deltas l) = Ok l.
+Proof. exact sized_deltas_roundtrip. Qed.
+Print Assumptions C09_sized_deltas_roundtrip.
+
+Theorem C09_sized_deltas16_roundtrip : forall l, Forall (fun p => p < W16) l -> nlen l * 2 <= MAXALLOC ->
+  from_sized_deltas16 (to_sized_deltas16 l) = Ok l.
+Proof. exact sized_deltas16_roundtrip. Qed.
+Print Assumptions C09_sized_deltas16_roundtrip.
+
+(** unmarshalDocSections (marshalDocSections secs) = secs for every list of uint32 pairs (no order required). *)
+Theorem C09_docsections_roundtrip : forall l, Forall sec_ok l -> nlen l * 8 <= MAXALLOC ->
+  unmarshal_doc_sections (marshal_doc_sections l) = Ok l.
+Proof. exact docsections_roundtrip. Qed.
+Print Assumptions C09_docsections_roundtrip.
+
+(** the fixed-width tables (fileEndSymbol, symbolMetaData, compound-section indexes; branch masks, ngramText) *)
+Theorem C09_u32_table_roundtrip : forall l, Forall (fun n => n < W32) l -> words 4 (concat (map be32 l)) = l.
+Proof. exact words4_be32. Qed.
+Print Assumptions C09_u32_table_roundtrip.
+Theorem C09_u64_table_roundtrip : forall l, Forall (fun n => n < W64) l -> words 8 (concat (map be64 l)) = l.
+Proof. exact words8_be64. Qed.
+Print Assumptions C09_u64_table_roundtrip.
+
+(** The ngram b-tree, for EVERY number of ngrams (empty, single, exact multiples of the half bucket, last bucket):
+    after inserting the ascending ngram list gs (newBtreeIndex), find(gs[p]) = (j, j*half) where bucket j starts at
+    position j*half <= p, and either j is the last bucket or p < (j+1)*half — i.e. the key lies in the bucket that
+    getBucket reads (all buckets but the last have exactly half = bucketSize/2 keys).  Includes leaf splits,
+    inner-node splits (v) and root splits. *)
+Theorem C09_btree_find_spec : forall half v gs p, (1 <= half)%nat -> (2 <= v)%nat -> asc gs -> (p < length gs)%nat ->
+  let t := bt_build (2 * half) v gs in
+  let '(j, po) := find t (nth p gs 0) in
+  po = (j * half)%nat /\ (j * half <= p)%nat /\ (S j = nleaves t \/ (p < S j * half)%nat).
+Proof. exact btree_find_spec. Qed.
+Print Assumptions C09_btree_find_spec.
+
+(** ... and the buckets together hold every ngram exactly once *)
+Theorem C09_btree_sizes_spec : forall half v gs, (1 <= half)%nat -> (2 <= v)%nat -> asc gs ->
+  nsizes (bt_build (2 * half) v gs) = length gs.
+Proof. exact btree_sizes_spec. Qed.
+Print Assumptions C09_btree_sizes_spec.
+
+(** the constants compiled into /repo satisfy the hypotheses of the b-tree theorems (regenerated every run) *)
+Example C09_consts_ok : btreeBucketSize = (2 * (btreeBucketSize / 2))%nat /\ (1 <= btreeBucketSize / 2)%nat /\ (2 <= btreeV)%nat
+                        /\ ngramEncoding = 8 /\ runeOffsetFrequency = 100.
+Proof. vm_compute. repeat split; try reflexivity; repeat constructor. Qed.
+
+(** Non-vacuity *)
+Example C09_nonvacuous_deltas :   (* unsorted, wraps around 2^32 *)
+  to_sized_deltas [5; 3; 4294967295; 0] = [4; 5; 254;255;255;255;15; 252;255;255;255;15; 1]
+  /\ from_sized_deltas (to_sized_deltas [5; 3; 4294967295; 0]) = Ok [5; 3; 4294967295; 0].
+Proof. vm_compute. split; reflexivity. Qed.
+
+Example C09_nonvacuous_docsecs :
+  unmarshal_doc_sections (marshal_doc_sections [(3, 7); (7, 7); (300, 70000)]) = Ok [(3, 7); (7, 7); (300, 70000)].
+Proof. vm_compute. reflexivity. Qed.
+
+Fixpoint upto (n : nat) (k : N) : list N := match n with O => [] | S m => k :: upto m (k + 3) end.
+Example C09_nonvacuous_btree :   (* bucketSize 4, v 2, 23 keys: leaf, inner and root splits; key 17 (= 5 + 3*4... position 4) *)
+  let gs := upto 23 5 in
+  height (bt_build 4 2 gs) = 3%nat /\ nleaves (bt_build 4 2 gs) = 11%nat /\
+  find (bt_build 4 2 gs) (nth 4 gs 0) = (2%nat, 4%nat) /\ find (bt_build 4 2 gs) (nth 22 gs 0) = (10%nat, 20%nat).
+Proof. vm_compute. repeat split; reflexivity. Qed.
+Example C09_nonvacuous_asc : asc (upto 23 5).
+Proof.
+  assert (G : forall n k i, (i < n)%nat -> nth i (upto n k) 0 = k + 3 * N.of_nat i).
+  { induction n as [|n IH]; intros k i Hi; [lia|]. destruct i; simpl; [lia|]. rewrite IH by lia. lia. }
+  assert (L : forall n k, length (upto n k) = n) by (induction n; intros; simpl; auto).
+  intros i j Hij. rewrite L in Hij. rewrite !G by lia. lia.
+Qed.
